@@ -239,7 +239,7 @@ def judge(ctx, trs, label, jvms=4):
                               scenario(t, None))
             else:
                 r = t["reads"][k - 1]
-                key = KNOWN_F12 if is_f12(t["fmt"], r["nsel"]) else "read:" + clause
+                key = KNOWN_F12 if (is_f12(t["fmt"], r["nsel"]) and clause in ("Shape", "Layout")) else "read:" + clause
                 what = r["exc"] if clause == "Raised" else f"shape {r['shape']}"
                 ctx.violation(key, f"{desc}: clause {clause} false on {r['call']}(nsel={show(r['nsel'])}, csel={show(r['csel'])}): {what}",
                               scenario(t, r))
@@ -430,7 +430,7 @@ def column_axis(ctx, rnd, by_n):
 def kinds_axis(ctx, rnd, by_n, maxn):
     """every probe record x sort x format: seeded selector pairs"""
     trs = []
-    npairs = 60 if ctx.quick else 400
+    npairs = 60 if ctx.quick else 1500
     for ki, base in enumerate(kinds_small(rnd, maxn)):
         ns = rnd.randint(2, maxn)
         spec = dict(base, ns=ns, seed=3000 + ki + 97 * ctx.seed)
